@@ -60,6 +60,7 @@ func init() {
 	register("C14", "exploration", 2, 8, 500, 20000, 5*time.Minute, 30*time.Minute, eng.RunConfigs)
 	register("C12", "fault_enumeration", 4, 16, 20, 500, 10*time.Minute, 60*time.Minute, eng.RunClose)
 	register("C13", "exploration", 2, 8, 5000, 100000, 5*time.Minute, 30*time.Minute, eng.RunCodec)
+	register("C15", "exploration", 3, 6, 6, 30, 12*time.Minute, 60*time.Minute, eng.RunRaces)
 	register("C18", "exploration", 4, 16, 4, 40, 8*time.Minute, 60*time.Minute, eng.RunResidue)
 }
 
@@ -157,6 +158,9 @@ func parent(prop, tier string, sp spec) int {
 			cmd := exec.Command(os.Args[0], "child", prop, tier, strconv.Itoa(b), strconv.Itoa(n), out)
 			cmd.Stdout, cmd.Stderr = lf, lf
 			cmd.Env = append(os.Environ(), "GOTRACEBACK=all")
+			if prop == "C15" {
+				cmd.Env = append(cmd.Env, "GORACE=halt_on_error=0 exitcode=0 history_size=5 log_path="+filepath.Join(runDir, fmt.Sprintf("race-%d", b)))
+			}
 			if err := cmd.Start(); err != nil {
 				mu.Lock()
 				infra++
@@ -209,6 +213,45 @@ func parent(prop, tier string, sp spec) int {
 		}(b)
 	}
 	wg.Wait()
+	if prop == "C15" {
+		harnessRaces := 0
+		files, _ := filepath.Glob(filepath.Join(runDir, "race-*"))
+		seen := map[string]int{}
+		nrep := 0
+		for _, f := range files {
+			lb, _ := os.ReadFile(f)
+			for _, rr := range eng.ParseRaces(string(lb)) {
+				nrep++
+				if rr.InTest {
+					harnessRaces++
+					keep := filepath.Join(vd, "replays", fmt.Sprintf("C15-harness-race-%d.txt", harnessRaces))
+					os.WriteFile(keep, []byte(rr.Text), 0o644)
+					continue
+				}
+				if !rr.InLib {
+					total.Count("race_reports_outside_library", 1)
+					continue
+				}
+				seen[rr.Sig]++
+				if seen[rr.Sig] == 1 {
+					total.Violate("race:"+rr.Sig, "data race inside the library: "+rr.Sig, map[string]any{"report": rr.Text})
+				}
+			}
+		}
+		total.Count("race_report_blocks", int64(nrep))
+		total.Count("race_log_files", int64(len(files)))
+		for sig, n := range seen {
+			total.Count("race."+sig, int64(n))
+		}
+		if !raceEnabled {
+			fmt.Println("INFRA: C15 must run in the -race build (veng-race)")
+			infra++
+		}
+		if harnessRaces > 0 {
+			fmt.Printf("INFRA: %d race reports have a harness frame innermost (harness bug; see replays/C15-harness-race-*.txt)\n", harnessRaces)
+			infra++
+		}
+	}
 	code := total.Finish(vd, sp.floor[ti])
 	if code == 0 && infra > 0 {
 		fmt.Printf("INFRA: %d child process(es) failed without a verdict\n", infra)
